@@ -64,10 +64,30 @@ pub struct YamlEmitter<'a> {
 /// A convenience alias for emitter functions that may fail without returning a value.
 pub type EmitResult = Result<(), EmitError>;
 
-// from serialize::json
+/// Write `v` as a double-quoted scalar.
 fn escape_str(wr: &mut dyn fmt::Write, v: &str) -> Result<(), fmt::Error> {
-    wr.write_str("\"")?;
+    // Not allowed unescaped in YAML, and beyond the ASCII table of `escape_segment`.
+    fn needs_unicode_escape(character: char) -> bool {
+        matches!(
+            character,
+            '\u{80}'..='\u{84}' | '\u{86}'..='\u{9f}' | '\u{feff}' | '\u{fffe}' | '\u{ffff}'
+        )
+    }
 
+    wr.write_str("\"")?;
+    let mut rest = v;
+    while let Some(i) = rest.find(needs_unicode_escape) {
+        let character = rest[i..].chars().next().unwrap_or_default();
+        escape_segment(wr, &rest[..i])?;
+        write!(wr, "\\u{:04x}", u32::from(character))?;
+        rest = &rest[i + character.len_utf8()..];
+    }
+    escape_segment(wr, rest)?;
+    wr.write_str("\"")
+}
+
+// from serialize::json
+fn escape_segment(wr: &mut dyn fmt::Write, v: &str) -> Result<(), fmt::Error> {
     let mut start = 0;
 
     for (i, byte) in v.bytes().enumerate() {
@@ -123,7 +143,6 @@ fn escape_str(wr: &mut dyn fmt::Write, v: &str) -> Result<(), fmt::Error> {
         wr.write_str(&v[start..])?;
     }
 
-    wr.write_str("\"")?;
     Ok(())
 }
 
@@ -461,12 +480,14 @@ fn need_quotes(string: &str) -> bool {
             | '\"'
             | '\''
             | '\\'
-            | '\0'..='\x06'
-            | '\t'
-            | '\n'
-            | '\r'
-            | '\x0e'..='\x1a'
-            | '\x1c'..='\x1f')
+            // Characters that YAML does not allow unescaped (C0 and C1 control characters, DEL,
+            // the byte order mark, U+FFFE, U+FFFF), and tabs and line breaks.
+            | '\0'..='\x1f'
+            | '\x7f'..='\u{84}'
+            | '\u{86}'..='\u{9f}'
+            | '\u{feff}'
+            | '\u{fffe}'
+            | '\u{ffff}')
         })
         || [
             // http://yaml.org/type/bool.html
